@@ -399,6 +399,27 @@ def run(rep, tier, seed):
             if Node.get_node_instance(z.id) is not z:
                 rep.violation(f"{PID}:fresh-node-not-retrievable", z.id, {"kind": "ids", "n": cnt})
             cnt += 1
+    # ... also when the host program brings its own random number generator back to an earlier state between two batches
+    # (re-seeding, setstate): that is no deliberate reuse of an id
+    import random as _random
+    state = _random.getstate()
+    for how in ("seed", "setstate"):
+        batches = []
+        for _ in range(2):
+            if how == "seed":
+                _random.seed(12345)
+            else:
+                _random.setstate(state)
+            batch = [Node("a") for _ in range(50)] + [base.copy() for _ in range(25)]
+            batches.append(batch)
+        seen = {}
+        for z in (n for b in batches for top in b for n in [top] + list(top.children)):
+            if z.id in seen and seen[z.id] is not z:
+                rep.violation(f"{PID}:id-collision:host-random-state-repeats", f"id {z.id} handed out twice after random.{how}", {"kind": "ids", "how": how})
+                break
+            seen[z.id] = z
+            cnt += 1
+    _random.setstate(state)
     Node.store.clear()
     rep.notes["fresh_ids_checked"] = cnt
 
